@@ -152,11 +152,17 @@ class Check:
         _, env = gen.gen_env(rng, world)
         nm = gen.node_map(world)
         faults = []
-        kind = rng.choice(["open", "open", "read", "read", "short_only", "vanish", "fifo", "dangling"])
+        kind = rng.choice(["open", "open", "read", "read", "short_only", "vanish", "fifo", "dangling", "readlink"])
         if kind == "fifo":
             world["nodes"].append({"path": tops[0] + "/pipe0", "type": "fifo"})
         elif kind == "dangling":
             world["nodes"].append({"path": tops[0] + "/dang0", "type": "symlink", "target": "nowhere/at_all"})
+        elif kind == "readlink":
+            # a link to a directory whose target text cannot be read (EACCES/EIO/EINVAL-by-race are what readlink(2) can return)
+            world["nodes"].append({"path": tops[0] + "/tdir", "type": "dir"})
+            world["nodes"].append({"path": tops[0] + "/tdir/inside.txt", "type": "file", "content": "ab\n"})
+            world["nodes"].append({"path": tops[0] + "/lnk0", "type": "symlink", "target": "tdir"})
+            faults.append({"fail": {"call": "readlink", "path": tops[0] + "/lnk0", "errno": rng.choice(["EACCES", "EIO"])}})
         else:
             for f in rng.sample(files, min(len(files), rng.choice([1, 1, 2]))):
                 size = len(nm[f].get("content", ""))
@@ -409,6 +415,24 @@ class Check:
                 if "fail" in f:
                     fkind = "%s:%s:%s" % (kind, f["fail"]["call"], f["fail"]["errno"])
             colsig = "+".join(sorted(c.split("(")[0] for c in cols))
+            if kind == "readlink":
+                # rows of a `symlinks` walk with the link unreadable: everything the plain walk finds, nothing the fault-free walk does not
+                qs = "select path" + self.from_clause(roots) + " symlinks into list"
+                qn = "select path" + self.from_clause(roots) + " into list"
+                rn = sb.run([qn], plan=copy.deepcopy(case["plan"]))
+                rf = sb.run([qs], plan=copy.deepcopy(case["plan"]))
+                rx = sb.run([qs], plan=self.plan_with(case))
+                bad = crashy(rx) or crashy(rn) or crashy(rf)
+                if bad:
+                    viols.append(Violation(PROP, "C17.B.crash", ["C17.B", "abnormal_end:" + bad, fkind, "path"], {"query": qs, "faults": case["faults"], "outcome": rx.summary()}))
+                    return viols
+                got = collections.Counter(r[0] for r in rx.rows(1))
+                lo = collections.Counter(r[0] for r in rn.rows(1))
+                hi = collections.Counter(r[0] for r in rf.rows(1))
+                if (lo - got) or (got - hi):
+                    viols.append(Violation(PROP, "C17.B.others", ["C17.B", "rows_changed_by_unreadable_link", fkind, "path"],
+                                           {"query": qs, "faults": case["faults"], "lost": [x.decode("utf-8", "replace") for x in (lo - got)][:4], "invented": [x.decode("utf-8", "replace") for x in (got - hi)][:4]}))
+                return viols
             if kind == "fifo":
                 res = sb.run([q], plan=self.plan_with(case))
                 bad = crashy(res)
